@@ -7,7 +7,7 @@ import numpy as np
 from .common import frac
 from .runner import PropertyCheck
 
-WEIGHTS = [0, 0, 1, 1, Fraction(1, 4), Fraction(1, 2), Fraction(3, 8), Fraction(15, 16), Fraction(-1, 2), -1]   # incl. negative weights (user-built kernels)
+WEIGHTS = [0, 0, 1, 1, Fraction(1, 4), Fraction(1, 2), Fraction(3, 8), Fraction(15, 16), Fraction(-1, 2), -1, Fraction(1, 2 ** 40), Fraction(-1, 2 ** 40)]   # incl. negative weights (user-built kernels)
 FILLS = ['0', '0', '5/2', '-3', '7', '1/4', 'nan', 'inf', '-inf']
 
 
